@@ -258,6 +258,37 @@ func stubTable() map[string]stubFn {
 		}
 		return FalseT
 	}
+	// ---- sort.Slice (the real one goes through reflectlite) ----
+	sortSlice := func(in *Interp, fr *frame, args []Value) Value {
+		ifc := args[0].(Iface)
+		sl, ok := ifc.v.(Slice)
+		if !ok || sl.img {
+			panic(pathAbort{"unsupported: sort.Slice on non-heap slice"})
+		}
+		less := args[1]
+		lt := func(i, j int) bool {
+			r := in.call(fr, less, []Value{BV(wordBits, uint64(i)), BV(wordBits, uint64(j))}).(*Term)
+			if r == TrueT {
+				return true
+			}
+			if r == FalseT {
+				return false
+			}
+			return in.branch(r, fr)
+		}
+		// insertion sort (stable), swapping whole elements in place
+		for i := 1; i < sl.len; i++ {
+			for j := i; j > 0 && lt(j, j-1); j-- {
+				a, b := &sl.arr.elems[sl.off+j], &sl.arr.elems[sl.off+j-1]
+				va, vb := copyVal(*a), copyVal(*b)
+				in.setCell(a, vb)
+				in.setCell(b, va)
+			}
+		}
+		return nil
+	}
+	m["sort.Slice"] = sortSlice
+	m["sort.SliceStable"] = sortSlice
 	// ---- sync ----
 	m["(*sync.Mutex).Lock"] = func(in *Interp, fr *frame, args []Value) Value {
 		in.mutexLock(fr, ptrCell(args[0]), "lock")
